@@ -5,6 +5,7 @@
 import Lean.Data.Json
 import Rbql.Model.Engine
 import Rbql.Spec.EngineSpec
+import Rbql.Model.Header
 namespace Driver
 open Rbql Lean
 
@@ -209,5 +210,44 @@ def opQuery (payload : String) : String :=
         ("afterRefusal", Json.num (JsonNumber.fromNat r.sink.afterRefusal)),
         ("finished", Json.num (JsonNumber.fromNat r.sink.finished)),
         ("warnA", encWarn4 r.warnA), ("warnB", encWarn4 r.warnB)]).compress
+
+def decColInfo (j : Json) : Except String ColInfo := do
+  let arr ← j.getArr?
+  let tag ← (arr.getD 0 .null).getStr?
+  match tag with
+  | "star" => .ok (.star none)
+  | "starA" => .ok (.star (some false))
+  | "starB" => .ok (.star (some true))
+  | "field" => do
+    let b ← (arr.getD 1 .null).getStr?
+    let i ← (arr.getD 2 .null).getNat?
+    .ok (.field (b == "b") i)
+  | "named" => do let n ← (arr.getD 1 .null).getStr?; .ok (.named n.toList)
+  | "alias" => do let n ← (arr.getD 1 .null).getStr?; .ok (.alias n.toList)
+  | _ => .ok .other
+
+def decStrList (j : Json) : Except String (List Str) := do
+  let arr ← j.getArr?
+  arr.toList.mapM (fun x => do let s ← x.getStr?; pure s.toList)
+
+def opHeader (payload : String) : String :=
+  match Json.parse payload with
+  | .error e => "bad-json " ++ e
+  | .ok j =>
+    match (do
+      let dc := (optField j "dc").map (fun v => v == Json.bool true) |>.getD false
+      let ih ← match optField j "ih" with | some v => do let l ← decStrList v; pure (some l) | none => pure none
+      let jh ← match optField j "jh" with | some v => do let l ← decStrList v; pure (some l) | none => pure none
+      let infos ← (← (← j.getObjVal? "infos").getArr?).toList.mapM decColInfo
+      let ex ← match optField j "except" with
+        | some v => do let arr ← v.getArr?; let l ← arr.toList.mapM (·.getNat?); pure (some l)
+        | none => pure none
+      pure (dc, ih, jh, infos, ex) : Except String _) with
+    | .error e => "bad-case " ++ e
+    | .ok (dc, ih, jh, infos, ex) =>
+      match queryHeader dc ih jh infos ex with
+      | .error _ => "{\"err\":\"star-and-alias\"}"
+      | .ok none => "{\"header\":null}"
+      | .ok (some h) => (Json.mkObj [("header", .arr (h.map (fun s => Json.str (String.ofList s))).toArray)]).compress
 
 end Driver
